@@ -41,10 +41,12 @@ fn gen_case(r: &mut Rng, id: usize) -> Case {
         15 | 16 => PkDecl::Tbl,
         _ => PkDecl::None,
     };
-    let key = r.below(ncols as u64) as usize; // the column the range predicates are on
+    // the column the range predicates are on; half of the cases meet the planner's guard position
+    let key = if r.chance(1, 2) { 0 } else { r.below(ncols as u64) as usize };
     let pk = if pkdecl == PkDecl::None { None } else { Some(key) };
     let nobg = r.chance(1, 5); // explicit compaction passes (distinct keys then)
-    let kty = match r.below(20) {
+    let kty = match r.below(24) {
+        20..=23 => Ty::I32,
         0..=9 => Ty::I32,
         10..=12 => Ty::I64,
         13 | 14 => Ty::Str,
